@@ -482,6 +482,69 @@ func Repeats(cs [][]oracle.Pt) [][][]oracle.Pt {
 	return out
 }
 
+// CrossingClosers: two-contour paths in which the last (closing) edge of one contour properly
+// crosses the first edge of the next contour, with a third edge between them in the sweep (the
+// segment numbers of a path run on across its contours, so these two edges are "neighbours" by
+// number without sharing a vertex). Two base shapes on the 6x6 lattice, every start vertex and
+// direction of both contours, both orders, under the 8 symmetries of the lattice.
+func CrossingClosers() [][][]oracle.Pt {
+	P := func(xy ...float64) []oracle.Pt {
+		var o []oracle.Pt
+		for i := 0; i+1 < len(xy); i += 2 {
+			o = append(o, oracle.Pt{X: xy[i], Y: xy[i+1]})
+		}
+		return o
+	}
+	bases := [][2][]oracle.Pt{
+		{P(0, 2, 5, 1, 5, 4), P(1, 5, 4, 2, 0, 3, 2, 3)},
+		{P(4, 4, 2, 0, 1, 0), P(4, 1, 1, 4, 2, 2, 0, 1)},
+	}
+	rot := func(c []oracle.Pt, k int, rev bool) []oracle.Pt {
+		n := len(c)
+		o := make([]oracle.Pt, n)
+		for i := range o {
+			j := (k + i) % n
+			if rev {
+				j = ((k-i)%n + n) % n
+			}
+			o[i] = c[j]
+		}
+		return o
+	}
+	sym := func(c []oracle.Pt, s int) []oracle.Pt {
+		o := make([]oracle.Pt, len(c))
+		for i, p := range c {
+			x, y := p.X, p.Y
+			if s&1 != 0 {
+				x = 5 - x
+			}
+			if s&2 != 0 {
+				y = 5 - y
+			}
+			if s&4 != 0 {
+				x, y = y, x
+			}
+			o[i] = oracle.Pt{X: x, Y: y}
+		}
+		return o
+	}
+	var out [][][]oracle.Pt
+	for _, b := range bases {
+		for ka := 0; ka < len(b[0]); ka++ {
+			for kb := 0; kb < len(b[1]); kb++ {
+				for dir := 0; dir < 4; dir++ {
+					for s := 0; s < 8; s++ {
+						a := sym(rot(b[0], ka, dir&1 != 0), s)
+						c := sym(rot(b[1], kb, dir&2 != 0), s)
+						out = append(out, [][]oracle.Pt{a, c}, [][]oracle.Pt{c, a})
+					}
+				}
+			}
+		}
+	}
+	return out
+}
+
 func families(tier string) []fw.Family {
 	L3, L4 := oracle.Lattice(3), oracle.Lattice(4)
 	tri3r := oracle.ContoursModRotation(L3, 3)
@@ -490,6 +553,7 @@ func families(tier string) []fw.Family {
 		family("quad(L4)/rot", single(oracle.ContoursModRotation(L4, 4)), 1, 1e-8, 1e-6, false),
 		family("pent(L3)/rot", single(oracle.ContoursModRotation(L3, 5)), 1, 1e-8, 1e-6, false),
 		family("tri(L3)/rot + tri(L3)/rot (two contours)", pairs(tri3r, tri3r), 1, 1e-8, 1e-6, false),
+		family("triangle + quadrilateral on L6 whose closing and opening edges cross: 2 base shapes x start vertices x directions x order x 8 symmetries", CrossingClosers(), 1, 1e-8, 1e-6, false),
 		family("rectilinear outer+inner+bar (L5), CCW/CW/CCW", rectilinear3(5, [][3]bool{{true, false, true}}, true), 1, 1e-8, 1e-6, false),
 		family("square with two separate inner rectangles (L7), both clockwise", TwoHoles([][2]bool{{false, false}}), 1, 1e-8, 1e-6, false),
 		curvedFamily(),
